@@ -447,28 +447,25 @@ class MethodsMixin:
         raise Unsupported("%s::%s" % (rv.name, name))
 
     # ------------------------------------------------------------------ strings
+    def s_apply(self, s, f):
+        """apply f (python str -> value) to every alternative of an interned string"""
+        if s.conc():
+            return f(s.v)
+        res = None
+        for c, txt in reversed(s.leaves()):
+            with self.ip.under(c):
+                r = f(txt)
+            res = r if res is None else ite(c, r, res)
+        return res
+
     def m_str(self, name, rv, place, A, D, env, hint):
         ip = self.ip
         if name in CLONE_LIKE or name in ("to_string", "to_owned", "as_bytes_str", "trim_matches_none"):
             if name == "into" and hint and hint[0] not in ("String", "str", "Cow"):
                 t = hint[0]
-                if t in ip.methods and "from" in ip.methods[t]:
-                    return ip.call_item(ip.methods[t]["from"], [rv], t)
+                if t in ip.froms:
+                    return ip.convert_into(rv, t)
             return rv
-        if name == "len":
-            if rv.conc():
-                return I(len(rv.v.encode()), "usize")
-            return I(z3.Length(rv.z()), "usize")
-        if name == "is_empty":
-            return (rv.v == "") if rv.conc() else (z3.Length(rv.z()) == 0)
-        if name in ("starts_with", "ends_with", "contains"):
-            o = D()
-            if isinstance(o, Clo):
-                raise Unsupported("str::%s with closure" % name)
-            if rv.conc() and o.conc():
-                return {"starts_with": rv.v.startswith(o.v), "ends_with": rv.v.endswith(o.v), "contains": o.v in rv.v}[name]
-            return {"starts_with": z3.PrefixOf(o.z(), rv.z()), "ends_with": z3.SuffixOf(o.z(), rv.z()),
-                    "contains": z3.Contains(rv.z(), o.z())}[name]
         if name == "push_str" or name == "push":
             o = D()
             ip.modify(place, lambda old: self.concat([ip.deref(old), o]))
@@ -479,15 +476,20 @@ class MethodsMixin:
         if name == "hash":
             return UNIT
         if not rv.conc():
-            if name == "strip_prefix":
-                o = D()
-                c = z3.PrefixOf(o.z(), rv.z())
-                return opt(c, S(z3.SubString(rv.z(), z3.Length(o.z()), z3.Length(rv.z()) - z3.Length(o.z()))))
-            if name == "strip_suffix":
-                o = D()
-                c = z3.SuffixOf(o.z(), rv.z())
-                return opt(c, S(z3.SubString(rv.z(), 0, z3.Length(rv.z()) - z3.Length(o.z()))))
-            raise Unsupported("str::%s on symbolic string" % name)
+            return self.s_apply(rv, lambda txt: self.m_str(name, S(txt), None, A, D, env, hint))
+        if name in ("starts_with", "ends_with", "contains", "strip_prefix", "strip_suffix", "find", "rfind", "split", "split_once"):
+            o = ip.deref(A()[0])
+            if isinstance(o, S) and not o.conc():
+                return self.s_apply(o, lambda txt: self.m_str(name, rv, None, (lambda h=None: [S(txt)]), (lambda i=0: S(txt)), env, hint))
+        if name == "len":
+            return I(len(rv.v.encode()), "usize")
+        if name == "is_empty":
+            return rv.v == ""
+        if name in ("starts_with", "ends_with", "contains"):
+            o = D()
+            if isinstance(o, (Clo, FnV)):
+                raise Unsupported("str::%s with closure" % name)
+            return {"starts_with": rv.v.startswith(o.v), "ends_with": rv.v.endswith(o.v), "contains": o.v in rv.v}[name]
         s = rv.v
         if name == "trim":
             return S(s.strip())
